@@ -1,0 +1,27 @@
+//go:build verif
+// +build verif
+
+package ledgerstore
+
+// Verification-only exports for the state-store property checks (no logic): an in-memory state
+// store over a caller supplied persist store (NewMemStateStore always opens a LevelDB with a
+// 4 MiB write buffer), and access to the persist store so that a small overlay can be layered
+// over it exactly like StateStore.NewOverlayDB does.
+
+import (
+	scom "github.com/polynetwork/poly/core/store/common"
+	"github.com/polynetwork/poly/merkle"
+)
+
+func VerifNewMemStateStoreOver(store scom.PersistStore, stateHashHeight uint32) *StateStore {
+	return &StateStore{
+		store:                store,
+		merkleTree:           merkle.NewTree(0, nil, nil),
+		deltaMerkleTree:      merkle.NewTree(0, nil, nil),
+		stateHashCheckHeight: stateHashHeight,
+	}
+}
+
+func (self *StateStore) VerifPersistStore() scom.PersistStore {
+	return self.store
+}
